@@ -749,3 +749,6 @@ def run(ctx):
     # the small accessors and pass-through wrappers the rules above look through by name return what their names say (rules/accessors.py)
     from rules import accessors as _acc
     _acc.rule_accessors(ctx, "C06")
+    # every listed thread goes through the stack step (same rule instance as C20/stack-decided-by-fill)
+    from rules import c20 as _c20s
+    _c20s.rule_stack_step_always(ctx, R="C06/stack-decided-by-fill")
